@@ -956,6 +956,11 @@ class Engine:
                         future = round(future, self.global_time_precision)
 
                     if future <= end_time:
+                        # a process forced to complete at end_time only
+                        # covers the remainder of the interval
+                        if force_complete and \
+                                process_time + process_timestep > end_time:
+                            process_timestep = end_time - process_time
 
                         # calculate the update for this process
                         if process.update_condition(process_timestep, states):
